@@ -347,10 +347,11 @@ def gen_section(rng, response, tier):
             sts.append({"toks": toks[:-1] + [[toks[-1][0], "m"]] + [[name, "o"]], "pre": ev + ["i"], "extra": 0,
                         "act": {"k": "field", "ty": ty, "name": name}})
             bound += bits + 8
-            if ty["arr"] and ty["arr"][0] != "fix":
-                varprod *= ty["arr"][1] + 1
+            # cost guard for _offset_ (numerical expansion of the offset set): number of distinct lengths so far
             if ty["sc"][0] == "ref":
-                varprod *= 6
+                varprod *= 70 if ty["arr"] is None else 10 ** 9
+            elif ty["arr"] and ty["arr"][0] != "fix":
+                varprod *= ty["arr"][1] + 1
             nfields_left -= 1
         elif k == "pad":
             w = rng.choice([1, 3, 7, 8, 16, 64, rng.randrange(1, 65)])
